@@ -39,6 +39,7 @@ structure DSt where
   c : Cfg
   mrs : RunSpec
   m : MState
+  ev : EvSt := { m := { eqs := [], pts := [], rs := ⟨0, 0, 0⟩ }, tab := [] }
 
 def stepLine (c : Cfg) (line : String) : Cfg × String :=
   match line.trimAscii.toString.splitOn " " with
@@ -73,6 +74,25 @@ def stepM (st : DSt) (line : String) : DSt × String :=
   | ["cfg", a, b, o, q] =>
       ({ st with c := { runspecStartApplied := a == "1", fileRunspecsKept := b == "1", scenarioOwnsDicts := o == "1",
                         overrideByPresence := q == "1" } }, "ok")
+  | ["cfg", a, b, o, q, e] =>
+      ({ st with c := { runspecStartApplied := a == "1", fileRunspecsKept := b == "1", scenarioOwnsDicts := o == "1",
+                        overrideByPresence := q == "1", evalReadsCurrent := e == "1" } }, "ok")
+  -- evaluation machine: `enew` a model, `eapply` settings (constants, points, run specs as they stand in the scenario),
+  -- `eeval` an evaluation, `ereset` Model.reset_cache(), `eread k` the table an evaluation uses for graphical function k
+  | ["enew", mrs, mpts] =>
+      match parseRs mrs, parseStore mpts with
+      | some mrs, some mpts => ({ st with ev := { m := { eqs := [], pts := mpts, rs := mrs }, tab := [] } }, "ok")
+      | _, _ => (st, "bad-op")
+  | ["eapply", cs, ps, rs] =>
+      match parseStore cs, parseStore ps, parseRs rs with
+      | some cs, some ps, some rs => ({ st with ev := estep st.c st.ev (.apply { consts := cs, pts := ps, rs := rs }) }, "ok")
+      | _, _, _ => (st, "bad-op")
+  | ["eeval"] => ({ st with ev := estep st.c st.ev .eval }, "ok")
+  | ["ereset"] => ({ st with ev := estep st.c st.ev .modelReset }, "ok")
+  | ["eread", k] =>
+      match k.toNat? with
+      | some k => (st, match readPts st.c st.ev k with | some v => s!"{v}" | none => "none")
+      | none => (st, "bad-op")
   | ["mgr", mrs, bc, bp] =>
       match parseRs mrs, parseStore bc, parseStore bp with
       | some mrs, some bc, some bp => ({ st with mrs := mrs, m := MState.init bc bp }, "ok")
